@@ -46,11 +46,15 @@
 //! `is_poisoned()` is true as soon as the holder's `join()` has returned; the lock can still be taken at the end; a lost
 //! wake-up is a hang (watchdog). The replay ties the order `poison.done` -> release of the lock word to the model.
 //!
+//! Family `scopecatch` (`build_catch`, replayed by `Scope.catchMachine`, part of `./check C13`): owners that catch the
+//! re-raised panic of a scoped child, go on and are cancelled; oracles `reraise:` / `uncancellable:` (see `build_catch`).
+//!
 //! Family `paniccq` (`build_cq`, oracles only): the same probe around `cqueue::scope` - the owner panics in `f`, or an
 //! arm panics and `poll` re-throws it, while another arm still runs, so `Cqueue::drop` has to wait.
 //!
-//! Trace = API events + hooked operations of join.rs, coroutine_impl.rs (result / panic slots), scoped.rs and
-//! sync/poison.rs (`failed.load` in `Flag::borrow` / `get`, `failed.store(1)` in `Flag::done`).
+//! Trace = API events + hooked operations of join.rs, coroutine_impl.rs (result / panic slots), scoped.rs,
+//! sync/poison.rs (`failed.load` in `Flag::borrow` / `get`, `failed.store(1)` in `Flag::done`) and cancel.rs (the cancel
+//! word: `fetch_or(1)` of the canceller, `fetch_add(2)` / `fetch_sub(2)` of the scoped join's bracket; loads skipped).
 use super::live_scope::{self, End, Node, Payload, ScopeSpec, Step};
 use super::LiveBuilt;
 use crate::rt::{call, ret, Rng};
@@ -192,7 +196,7 @@ pub fn build(rng: &mut Rng, tier: u32, with_scope: bool) -> LiveBuilt {
     let header = format!("family={} actors={nact} rounds={rounds}", if with_scope { "panicscope" } else { "panic" });
     LiveBuilt {
         header,
-        filter: vec!["src/join.rs", "src/coroutine_impl.rs", "src/scoped.rs", "src/sync/poison.rs"],
+        filter: vec!["src/join.rs", "src/coroutine_impl.rs", "src/scoped.rs", "src/sync/poison.rs", "src/cancel.rs"],
         hang_ms: 4000,
         run: Box::new(move || {
             std::panic::set_hook(Box::new(|info| {
@@ -985,6 +989,252 @@ pub fn build_hand(rng: &mut Rng, _tier: u32) -> LiveBuilt {
             }
             // released: still acquirable (a lock that was not would hang: watchdog), and still reported poisoned
             acquire(&m, &rw, is_rw, Acq::Excl, lid, &fails, "main (final)", panics);
+            super::quiesce(3);
+            let mut out = std::mem::take(&mut *fails.lock().unwrap_or_else(|e| e.into_inner()));
+            super::classify_f10(&mut out);
+            out
+        }),
+    }
+}
+
+/// one owner of family `scopecatch`
+#[derive(Clone, Debug)]
+struct CatchOwner {
+    id: usize,
+    /// (id, yields before it ends, panic payload if it panics)
+    kids: Vec<(usize, u32, Option<u64>)>,
+    /// index of a child that is joined explicitly (`ScopedJoinHandle::join`) inside the scope closure
+    explicit: Option<usize>,
+    /// cancellation points: 0 yield_now, 1 sleep(60 µs), 2 both in turn
+    beat_kind: u8,
+    /// cancellation points the owner passes before `main` cancels it
+    before_cancel: usize,
+}
+
+/// family `scopecatch` (C13, replayed by `Scope.catchMachine`): **the panic of a scoped coroutine is re-raised in the owner
+/// of the scope and has no other effect on it.** 2-4 owner coroutines each wrap a `coroutine::scope` with 1-3 scoped
+/// children in `catch_unwind` (a server loop guarding one request). In some owners a child panics (before / after yields;
+/// joined by the scope-exit dtors or explicitly inside the closure), the others are controls. Every owner survives, reports
+/// whether something was re-raised, parks until `main` lets it go and then runs a loop of cancellation points
+/// (`yield_now`, `sleep`). `main` lets one owner at a time run a few of them and cancels it.
+/// Oracles (no real-time bound): `reraise:` the scope re-raised iff a child panicked; `uncancellable:` once `cancel()` has
+/// returned the owner ends after at most a few more cancellation points - an owner that passes `SLACK` more is stopped
+/// by a flag and reported - and its `JoinHandle` yields exactly `Error::Cancel`; afterwards fresh coroutines run.
+pub fn build_catch(rng: &mut Rng, _tier: u32) -> LiveBuilt {
+    const SLACK: usize = 12;
+    let no = 2 + rng.below(3) as usize;
+    let mut next = 2 + no;
+    let mut owners = vec![];
+    for i in 0..no {
+        let nk = 1 + rng.below(3) as usize;
+        // the first owner always has a panicking child, the second never (control); the rest are seeded
+        let panics = match i {
+            0 => true,
+            1 => false,
+            _ => rng.below(2) == 0,
+        };
+        let bad = rng.below(nk as u64) as usize;
+        let kids: Vec<(usize, u32, Option<u64>)> = (0..nk)
+            .map(|k| {
+                let id = next;
+                next += 1;
+                let p = if panics && (k == bad || rng.below(4) == 0) { Some(7000 + id as u64) } else { None };
+                (id, rng.below(3) as u32, p)
+            })
+            .collect();
+        let explicit = if rng.below(3) == 0 { Some(rng.below(nk as u64) as usize) } else { None };
+        owners.push(CatchOwner { id: 2 + i, kids, explicit, beat_kind: rng.below(3) as u8, before_cancel: rng.below(5) as usize });
+    }
+    let order: Vec<usize> = {
+        let mut v: Vec<usize> = (0..no).collect();
+        for i in (1..no).rev() {
+            v.swap(i, rng.below(i as u64 + 1) as usize);
+        }
+        v
+    };
+    let header = format!(
+        "family=scopecatch actors={} owners={} panicking={}",
+        next,
+        no,
+        owners.iter().filter(|o| o.kids.iter().any(|k| k.2.is_some())).map(|o| format!("c{}", o.id)).collect::<Vec<_>>().join(",")
+    );
+    LiveBuilt {
+        header,
+        filter: vec!["src/cancel.rs", "src/scoped.rs", "src/join.rs", "src/coroutine_impl.rs"],
+        hang_ms: 6000,
+        run: Box::new(move || {
+            std::panic::set_hook(Box::new(|info| {
+                let cancel = info.location().map(|l| l.file().ends_with("cancel.rs")).unwrap_or(false);
+                if info.payload().downcast_ref::<Payload>().is_none() && !cancel {
+                    eprintln!("unexpected panic: {info}");
+                }
+            }));
+            may::config().set_stack_size(0x8000);
+            let fails: Arc<StdMutex<Vec<String>>> = Arc::new(StdMutex::new(vec![]));
+            struct Live {
+                h: Option<coroutine::JoinHandle<u64>>,
+                caught: Arc<AtomicUsize>, // 0 not yet, 1 nothing re-raised, 2 a payload was re-raised
+                go: Arc<AtomicBool>,
+                stop: Arc<AtomicBool>,
+                beats: Arc<AtomicUsize>,
+                gone: Arc<AtomicBool>,
+            }
+            let mut live = vec![];
+            for o in owners.iter().cloned() {
+                let l = Live {
+                    h: None,
+                    caught: Arc::new(AtomicUsize::new(0)),
+                    go: Arc::new(AtomicBool::new(false)),
+                    stop: Arc::new(AtomicBool::new(false)),
+                    beats: Arc::new(AtomicUsize::new(0)),
+                    gone: Arc::new(AtomicBool::new(false)),
+                };
+                let (caught, go, stop, beats, gone, fails2) = (l.caught.clone(), l.go.clone(), l.stop.clone(), l.beats.clone(), l.gone.clone(), fails.clone());
+                call("spawn", o.id as u64, 0);
+                let h = unsafe {
+                    coroutine::Builder::new().name(format!("c{}", o.id)).spawn(move || {
+                        let _gone = SetOnDrop(gone);
+                        let me = o.id;
+                        call("child.begin", me as u64, 0);
+                        let kids = o.kids.clone();
+                        let explicit = o.explicit;
+                        let r = std::panic::catch_unwind(std::panic::AssertUnwindSafe(|| {
+                            call("scope.enter", me as u64, 0);
+                            coroutine::scope(|s| {
+                                let mut hs = vec![];
+                                for &(kid, yields, pay) in kids.iter() {
+                                    call("scope.spawn", kid as u64, 0);
+                                    let h = unsafe {
+                                        s.spawn_with_builder(
+                                            move || {
+                                                call("child.begin", kid as u64, 0);
+                                                for _ in 0..yields {
+                                                    coroutine::yield_now();
+                                                }
+                                                if let Some(p) = pay {
+                                                    call("child.panic", kid as u64, p);
+                                                    std::panic::panic_any(Payload(p));
+                                                }
+                                                call("child.end", kid as u64, kid as u64);
+                                                kid as u64
+                                            },
+                                            coroutine::Builder::new().name(format!("c{kid}")),
+                                        )
+                                    };
+                                    hs.push(Some(h));
+                                }
+                                if let Some(i) = explicit {
+                                    call("sjoin", kids[i].0 as u64, 0);
+                                    let v = hs[i].take().unwrap().join();
+                                    ret("sjoin", v);
+                                }
+                                call("scope.fend", 0, 0);
+                            });
+                        }));
+                        let reraised = match &r {
+                            Ok(()) => None,
+                            Err(e) => Some(e.downcast_ref::<Payload>().map(|p| p.0)),
+                        };
+                        call("caught", me as u64, reraised.is_some() as u64);
+                        let own: Vec<u64> = o.kids.iter().filter_map(|k| k.2).collect();
+                        match reraised {
+                            None if own.is_empty() => {}
+                            Some(Some(p)) if own.contains(&p) => {}
+                            other => {
+                                let mut f = fails2.lock().unwrap_or_else(|e| e.into_inner());
+                                f.push(format!("reraise: the scope of owner c{me} (payloads of its panicking children: {own:?}) re-raised {other:?}"));
+                            }
+                        }
+                        drop(r);
+                        caught.store(1 + reraised.is_some() as usize, Ordering::SeqCst);
+                        // wait (blocked, no events) until main lets this owner go
+                        while !go.load(Ordering::SeqCst) {
+                            coroutine::park();
+                        }
+                        // the owner goes on: every iteration is a cancellation point
+                        let mut n = 0usize;
+                        while !stop.load(Ordering::SeqCst) {
+                            match (o.beat_kind, n % 2) {
+                                (0, _) | (2, 0) => coroutine::yield_now(),
+                                _ => coroutine::sleep(Duration::from_micros(60)),
+                            }
+                            n += 1;
+                            beats.store(n, Ordering::SeqCst);
+                        }
+                        call("child.end", me as u64, n as u64);
+                        n as u64
+                    })
+                    .unwrap()
+                };
+                live.push(Live { h: Some(h), ..l });
+            }
+            let fail = |s: String| {
+                let mut f = fails.lock().unwrap_or_else(|e| e.into_inner());
+                if f.len() < 12 {
+                    f.push(s);
+                }
+            };
+            // phase 1: every owner has left its scope and caught what was re-raised (they are parked now: if one never
+            // gets there no event is logged any more and the watchdog reports the hang)
+            for l in live.iter() {
+                while l.caught.load(Ordering::SeqCst) == 0 {
+                    std::thread::sleep(Duration::from_micros(50));
+                }
+            }
+            // phase 2: one owner at a time runs a few cancellation points and is cancelled
+            for &i in order.iter() {
+                let o = &owners[i];
+                let l = &mut live[i];
+                let h = l.h.take().unwrap();
+                let panicking = o.kids.iter().any(|k| k.2.is_some());
+                l.go.store(true, Ordering::SeqCst);
+                h.coroutine().unpark();
+                while l.beats.load(Ordering::SeqCst) < o.before_cancel {
+                    std::thread::sleep(Duration::from_micros(20));
+                }
+                call("cancel", o.id as u64, 0);
+                unsafe { h.coroutine().cancel() };
+                ret("cancel", 0);
+                let b0 = l.beats.load(Ordering::SeqCst);
+                let mut stopped = false;
+                while !l.gone.load(Ordering::SeqCst) {
+                    let b = l.beats.load(Ordering::SeqCst);
+                    if b >= b0 + SLACK {
+                        fail(format!(
+                            "uncancellable: owner c{} ({}) passed {} cancellation points after cancel() had returned ({} before) and is still running: the cancel is not delivered",
+                            o.id,
+                            if panicking { "it had caught the re-raised panic of a scoped child" } else { "control: none of its scoped children panicked" },
+                            b - b0,
+                            b0
+                        ));
+                        stopped = true;
+                        l.stop.store(true, Ordering::SeqCst);
+                        break;
+                    }
+                    std::thread::sleep(Duration::from_micros(20));
+                }
+                call("join", o.id as u64, 0);
+                let r = h.join();
+                let code = match &r {
+                    Ok(_) => 0,
+                    Err(e) => match e.downcast_ref::<generator::Error>() {
+                        Some(generator::Error::Cancel) => 2,
+                        _ => 1,
+                    },
+                };
+                ret("join", code);
+                if !stopped && code != 2 {
+                    fail(format!("uncancellable: the JoinHandle of the cancelled owner c{} yielded {} instead of Error::Cancel",
+                        o.id, if code == 0 { "a value" } else { "a foreign panic payload" }));
+                }
+            }
+            // the workers are fine: fresh coroutines run
+            let hs: Vec<_> = (0..4).map(|k| unsafe { coroutine::spawn(move || { coroutine::yield_now(); k }) }).collect();
+            for (k, h) in hs.into_iter().enumerate() {
+                if h.join().ok() != Some(k) {
+                    fail("isolation: a fresh coroutine did not return its value".to_string());
+                }
+            }
             super::quiesce(3);
             let mut out = std::mem::take(&mut *fails.lock().unwrap_or_else(|e| e.into_inner()));
             super::classify_f10(&mut out);
